@@ -10,22 +10,7 @@ silence_rdkit()
 import numpy as np  # noqa: E402
 
 
-def fingerprint(lib):
-    items = []
-    for k in lib:
-        ps = lib[k]
-        if 'thermochem' in ps:
-            c = ps['thermochem']
-            items.append([str(k), repr(c.ND_H_ref), repr(c.ND_S_ref), sorted((float(t), float(v)) for t, v in (c.ND_Cp_data or {}).items()),
-                          None if c.get_range() is None else [float(x) for x in c.get_range()], float(c.T_ref)])
-        else:
-            items.append([str(k), None])
-    items.sort(key=lambda x: x[0])
-    uq = None
-    if lib.uq_contents:
-        uq = [list(map(str, lib.uq_contents['descriptors'])), np.asarray(lib.uq_contents['mat']).tolist(), lib.uq_contents['dof']]
-    blob = json.dumps([items, uq], sort_keys=True, default=str)
-    return hashlib.sha1(blob.encode()).hexdigest(), len(items)
+from libs_fp import fingerprint  # noqa: E402
 
 
 def job(j):
